@@ -1,5 +1,6 @@
 import ElkVerif.Proofs.Str
 import ElkVerif.Proofs.LastRune
+import ElkVerif.Proofs.Sync
 /-!
 # C20 — String operations agree with code-point, byte and grapheme models
 
@@ -218,6 +219,26 @@ theorem rjust_length (s : Bytes) (n : Int) (c : Int) :
     (charCount (rjust s n c) : Int) = max n (charCount s) := by
   rw [rjust_spec, charCount_pad]
   omega
+
+/-- `ljust`: the result has `max n (length s)` characters — for every string, valid or not (UTF-8 is
+self-synchronising: padding appended after a truncated sequence cannot complete it) -/
+theorem ljust_length (s : Bytes) (n : Int) (c : Int) :
+    (charCount (ljust s n c) : Int) = max n (charCount s) := by
+  rw [ljust_spec, charCount_pad_right]
+  omega
+
+/-- lengths also add for an arbitrary (even invalid) left operand when the right operand starts at a
+rune start (is empty or begins with a non-continuation byte — in particular when it is valid UTF-8) -/
+theorem length_add_start (a b : Bytes) (hb : StartsAtRune b) : charCount (a ++ b) = charCount a + charCount b :=
+  charCount_append_start a b hb
+
+theorem chars_concat_start (a b : Bytes) (hb : StartsAtRune b) : charIter (a ++ b) = charIter a ++ charIter b :=
+  charIter_append_start a b hb
+
+/-- `s + c` for a Char always adds exactly one character -/
+theorem length_add_char (s : Bytes) (c : Int) : charCount (s ++ encodeRuneInt c) = charCount s + 1 := by
+  have := charCount_pad_right 1 c s
+  simpa using this
 
 /-- the unchanged tree measured the string in bytes: `"é".rjust(3, '-')` had 2 characters -/
 theorem rjust_old_witness :
